@@ -594,3 +594,14 @@ U("src.len_u", src="units/src_unit.c", harness="h_src_len_u", enforce="m_mod_src
 PROPS["C09"]["level_text"] = PROPS["C09"]["level_text"].replace("m_mod_src_len() is a BOUNDED stand-in (<= 2 sources per kind, stub iterators): the count for one kind is the size of that kind's set, internal sources excluded.",
     "m_mod_src_len() (three loop contracts over abstract iterators, any number of sources): exactly the elements of the set(s) asked for are examined, each once, and the answer is the number of those that are not library-internal.")
 PROPS["C09"]["not_decided"] = ["that the BST behind the abstract keyed set is a set for > K nodes (C11 is bounded)", "m_mod_ps_unsubscribe", "one-shot removal in recv_events for batches of more than 2 events (bounded stand-in)"]
+U("thpool.add_threads", src="units/thpool_unit.c", harness="h_pool_spawn", enforce="add_threads", loop_contracts=True, defines=["V_POOL_SPAWN"], logctx="THPOOL",
+  replace=["v_attr_init", "v_attr_destroy", "v_attr_setdetachstate", "v_thread_create", "m_list_insert"], props=["C06", "C04"], contract_files=THP, native=False, timeout=300, min_obligations=20,
+  must_have=["invariant after step"])
+U("thpool.new", src="units/thpool_unit.c", harness="h_pool_new", enforce="m_thpool_new", defines=["V_POOL_NEW", "V_POOL_SPAWN_CALLEE_OFF"], logctx="THPOOL",
+  replace=["m_list_new", "m_queue_new", "v_mutex_init", "v_cond_init", "add_threads", "m_thpool_free"], props=["C06", "C04"], contract_files=THP, native=False, timeout=300, min_obligations=20)
+
+PROPS["C06"]["level_text"] += (" add_threads() (loop contract, any number of workers): every created worker runs the pool loop of this pool and is recorded in the thread list exactly once, creation stops "
+                               "at the first failure, which leaves no record; m_thpool_new(): a pool comes back fully built with its configured size and flags (workers spawned unless lazy) or is torn down and not returned.")
+PROPS["C06"]["not_decided"] = ["interleaving semantics beyond the lock-discipline argument; deadlock freedom / lost wake-ups (liveness)",
+                               "detached pools are a recorded known finding", "the running_tasks counter is updated outside the mutex (statistics only; not covered by an obligation)",
+                               "allocation failure of a thread slot in add_threads (passed on to pthread_create unchecked)"]
